@@ -124,8 +124,70 @@ def _returns_element_value(loop):
     return False
 
 
+def _is_bag_name(f, name, depth=0, seen=None):
+    """every use of the list `name` is insensitive to the order of its elements: membership tests, commutative
+    accumulation loops, set()/sorted()/any()..., a comprehension whose own result is such a bag again, or the life of a
+    saturation worklist (pop / append / extend / emptiness test in a loop that never returns an element-derived value)"""
+    seen = seen or set()
+    if depth > 4 or name in seen:
+        return name in seen
+    seen = seen | {name}
+    parents = {}
+    for n in ast.walk(f.node):
+        for c in ast.iter_child_nodes(n):
+            parents[id(c)] = n
+    uses = [x for x in walk_no_nested(f.node) if isinstance(x, ast.Name) and x.id == name and isinstance(x.ctx, ast.Load)]
+    if not uses:
+        return False
+    for x in uses:
+        p = parents.get(id(x))
+        ok = False
+        if isinstance(p, ast.Compare) and len(p.ops) == 1 and isinstance(p.ops[0], (ast.In, ast.NotIn)) and p.comparators[0] is x:
+            ok = True
+        elif isinstance(p, ast.For) and p.iter is x and _commutative_body(p.body):
+            ok = True
+        elif isinstance(p, ast.Call) and any(a is x for a in p.args):
+            fn = p.func
+            nm = fn.id if isinstance(fn, ast.Name) else (fn.attr if isinstance(fn, ast.Attribute) else None)
+            ok = nm in ('set', 'frozenset', 'sorted', 'any', 'all', 'union', 'sum', 'len', 'max', 'min', 'update', 'intersection', 'difference', 'extend')
+            if nm == 'extend' and not (isinstance(fn, ast.Attribute) and isinstance(fn.value, ast.Name) and _is_bag_name(f, fn.value.id, depth + 1, seen)):
+                ok = False
+        elif isinstance(p, ast.Starred):
+            pp = parents.get(id(p))
+            ok = isinstance(pp, ast.Call) and isinstance(pp.func, ast.Attribute) and pp.func.attr in ('union', 'intersection', 'update')
+        elif isinstance(p, ast.Attribute) and p.value is x and p.attr in ('pop', 'append', 'extend'):
+            # worklist life; harmless unless the loop hands out something derived from the element it happens to meet first
+            loop = None
+            for l in walk_no_nested(f.node):
+                if isinstance(l, ast.While) and any(y is x for y in ast.walk(l)):
+                    loop = l
+            ok = loop is None or not any(isinstance(r, (ast.Return, ast.Break)) and not (isinstance(r, ast.Return) and (r.value is None or isinstance(r.value, ast.Constant))) for r in ast.walk(loop))
+        elif isinstance(p, ast.While) and p.test is x:
+            ok = True
+        elif isinstance(p, ast.UnaryOp) and isinstance(p.op, ast.Not):
+            ok = True
+        elif isinstance(p, ast.comprehension) and p.iter is x:
+            comp = parents.get(id(p))
+            cp = parents.get(id(comp))
+            if isinstance(comp, (ast.SetComp, ast.DictComp)):
+                ok = True
+            elif isinstance(cp, ast.Call) and isinstance(cp.func, ast.Name) and cp.func.id in ('set', 'frozenset', 'sorted', 'any', 'all', 'sum', 'len', 'max', 'min'):
+                ok = True
+            elif isinstance(cp, (ast.Assign, ast.AnnAssign)):
+                tg = cp.targets[0] if isinstance(cp, ast.Assign) else cp.target
+                ok = isinstance(tg, ast.Name) and _is_bag_name(f, tg.id, depth + 1, seen)
+        if not ok:
+            return False
+    return True
+
+
 def _sanitised(f, comp):
     # a list that is only ever used as the right-hand side of a membership test is a bag
+    for n in walk_no_nested(f.node):
+        if isinstance(n, (ast.Assign, ast.AnnAssign)) and n.value is comp:
+            tg = n.targets[0] if isinstance(n, ast.Assign) else n.target
+            if isinstance(tg, ast.Name) and _is_bag_name(f, tg.id):
+                return True
     for n in walk_no_nested(f.node):
         if isinstance(n, ast.Assign) and n.value is comp and len(n.targets) == 1 and isinstance(n.targets[0], ast.Name):
             name = n.targets[0].id
